@@ -119,7 +119,7 @@ func (g *gen) render() string {
 // names
 
 var (
-	lowerNames  = []string{"a", "b", "x", "foo", "bar", "value", "i", "it", "$v", "_u", "x1", "getName", "setName", "isOk", "nullable", "переменная", "ünï", "变量", "𝒳y", "ſ", "émile"}
+	lowerNames  = []string{"a", "b", "x", "foo", "bar", "value", "i", "it", "$v", "_u", "x1", "getName", "setName", "isOk", "nullable", "get", "set", "is", "main", "test", "of", "переменная", "ünï", "变量", "𝒳y", "ſ", "émile"}
 	upperNames  = []string{"A", "B", "Foo", "Bar", "T", "Outer", "String", "Object", "List", "E", "Ünï", "Класс", "漢字", "Ω", "Élan", "$T", "_K", "İ"}
 	ctxKeywords = []string{"module", "open", "requires", "exports", "opens", "to", "uses", "provides", "with", "transitive", "yield", "sealed", "permits", "record", "var"}
 	pkgParts    = []string{"a", "b", "com", "example", "util", "x1", "пакет", "to", "open", "with"}
